@@ -11,6 +11,7 @@
 package vnet
 
 import (
+	"sync/atomic"
 	"bytes"
 	"container/heap"
 	"fmt"
@@ -153,6 +154,12 @@ type Sim struct {
 
 var curMu sync.Mutex
 var cur *Sim
+
+// Progress counts scheduler iterations of the whole process. The scheduler can only make a step when every other
+// goroutine of the run is durably blocked; a goroutine of the library that blocks on something the simulator does
+// not own (a channel or lock that was created outside the run, e.g. at package level) stalls it for good - in real
+// time. The worker watches this counter from outside the bubble.
+var Progress atomic.Int64
 
 func current() *Sim {
 	curMu.Lock()
@@ -298,6 +305,7 @@ func (s *Sim) Run() {
 
 	for {
 		synctest.Wait()
+		Progress.Add(1)
 		s.drain()
 
 		if s.Steps >= s.cfg.MaxSteps {
